@@ -21,6 +21,7 @@ func TestC07EVM(t *testing.T) {
 	}
 	rapid.Check(t, func(rt *rapid.T) {
 		c := evmBase.GenEvmCase(rt)
+		evmcheck.KnownUnit = "evm"
 		p := evmcheck.CheckCase(rt, evmBase, c)
 		nontrivial := p.NestedFailThenWrite && p.MaxLive >= 2 && p.RevertAfterWrite
 		cls := []string{fmt.Sprintf("reverts%d", min(p.Reverts, 3)), fmt.Sprintf("nesting%d", min(p.MaxLive, 4))}
